@@ -189,6 +189,8 @@ var shapeAreas = map[string][]shapeFn{
 		{"skiplist/iterator.go", "*Iterator", "SeekWithCmp", "SkipIterSeekWithCmp"}, {"skiplist/iterator.go", "*Iterator", "Seek", "SkipIterSeek"},
 		{"skiplist/iterator.go", "*Iterator", "Valid", "SkipIterValid"}, {"skiplist/iterator.go", "*Iterator", "Next", "SkipIterNext"},
 		{"skiplist/iterator.go", "*Iterator", "Refresh", "SkipIterRefresh"}, {"skiplist/iterator.go", "*Iterator", "Close", "SkipIterClose"},
+		{"skiplist/iterator.go", "*Iterator", "Pause", "SkipIterPause"}, {"skiplist/iterator.go", "*Iterator", "Resume", "SkipIterResume"},
+		{"skiplist/iterator.go", "*Iterator", "SetRefreshInterval", "SkipIterSetRefreshInterval"},
 		{"skiplist/node_amd64.go", "*Node", "setNext", ""}, {"skiplist/node_amd64.go", "*Node", "getNext", ""},
 		{"skiplist/node_amd64.go", "*Node", "dcasNext", ""}, {"skiplist/item.go", "", "compare", "itemCompare"},
 		{"skiplist/skiplist.go", "", "NewWithConfig", "SkiplistNewWithConfig"}, {"skiplist/skiplist.go", "*Skiplist", "NewNode", ""},
